@@ -26,6 +26,7 @@ def main(argv=None) -> int:
     if not a.pid:
         ap.error("property id required")
     pid = a.pid.upper()
+    os.environ["PDELINT_TIER"] = a.tier  # engines that scale their configuration space with the tier read this
     try:
         mod = importlib.import_module(f"pdelint.props.{pid.lower()}")
     except ModuleNotFoundError:
